@@ -500,6 +500,15 @@ func flowRenew2Migrate(r *Recorder, accts []*Account) {
 	m.completeAll()
 	r.EndBlock()
 	r.Blocks(3)
+	// the owner ends the model while both renewals are still queued: everything not yet earned comes back
+	r.BeginBlock()
+	tp := saotypes.TerminateProposal{Owner: o.did, DataId: dataA}
+	r.Terminate(m.gw, &saotypes.MsgTerminate{Creator: m.gw.Bech(), Proposal: tp, JwsSignature: SignJWS(&tp, o.key, o.kid), Provider: m.gw.Bech()})
+	for _, p := range m.providers {
+		r.ClaimReward(p)
+	}
+	r.EndBlock()
+	r.Blocks(2)
 }
 
 // Fault reports about shards the accused does not hold: one that is only assigned (never completed)
